@@ -1,2 +1,242 @@
-// Package c11: implementation-side ops, generators and oracles for property C11.
+// Package c11: masked columns show only the allowed window to clients that cannot decrypt (C11).
 package c11
+
+import (
+	"bytes"
+	"fmt"
+	"strings"
+	"time"
+
+	"github.com/cossacklabs/acra/crypto"
+	encryptor "github.com/cossacklabs/acra/encryptor/base"
+	"github.com/cossacklabs/acra/encryptor/base/config"
+	"github.com/cossacklabs/acra/masking"
+
+	"verifharness/internal/core"
+	env "verifharness/internal/envops"
+)
+
+// setting builds the column setting through Acra's own YAML configuration path (validation included).
+func setting(kind, patternHex, k, side string) (config.ColumnEncryptionSetting, error) {
+	envl := "acrastruct"
+	if kind == "block" {
+		envl = "acrablock"
+	}
+	// YAML double-quoted scalar with \xNN escapes carries arbitrary pattern bytes
+	var sb strings.Builder
+	for _, b := range core.UnHex(patternHex) {
+		fmt.Fprintf(&sb, "\\x%02x", b)
+	}
+	y := fmt.Sprintf("schemas:\n  - table: t\n    columns: [c]\n    encrypted:\n      - column: c\n        masking: \"%s\"\n        plaintext_length: %s\n        plaintext_side: %s\n        crypto_envelope: %s\n", sb.String(), k, side, envl)
+	st, err := config.MapTableSchemaStoreFromConfig([]byte(y), config.UsePostgreSQL)
+	if err != nil {
+		return nil, err
+	}
+	return st.GetTableSchema("t").GetColumnEncryptionSettings("c"), nil
+}
+
+func init() {
+	core.RegisterProp("C11", run)
+	// write kind pattern k side [kv×4] data rnd
+	core.Register("C11.write", func(a []string) (res string) {
+		s, err := setting(a[0], a[1], a[2], a[3])
+		if err != nil {
+			return "badcfg"
+		}
+		kv := env.ParseKV(a[4:8])
+		reg := crypto.NewRegistryHandler(kv)
+		me, err := masking.NewMaskingDataEncryptor(&env.TKS{Clients: map[string]*env.KV{"client": kv}}, encryptor.NewChainDataEncryptor(reg))
+		if err != nil {
+			panic("harness: " + err.Error())
+		}
+		env.WithRand(core.UnHex(a[9]), func() {
+			out, err := me.EncryptWithClientID([]byte("client"), core.UnHex(a[8]), s)
+			if err != nil {
+				res = core.Err
+			} else {
+				res = core.OkHex(out)
+			}
+		})
+		return
+	})
+	// read kind pattern k side [kv×4] stored
+	core.Register("C11.read", func(a []string) string {
+		s, err := setting(a[0], a[1], a[2], a[3])
+		if err != nil {
+			return "badcfg"
+		}
+		kv := env.ParseKV(a[4:8])
+		reg := crypto.NewRegistryHandler(kv)
+		proc, err := masking.NewProcessor(reg)
+		if err != nil {
+			panic("harness: " + err.Error())
+		}
+		det := crypto.NewEnvelopeDetector()
+		w := crypto.NewOldContainerDetectorWrapper(det)
+		det.AddCallback(crypto.NewDecryptHandler(kv, proc))
+		ctx := encryptor.NewContextWithEncryptionSetting(env.Ctx([]byte("client")), s)
+		_, out, err := w.OnColumn(ctx, core.UnHex(a[8]))
+		if err != nil {
+			return "fatal"
+		}
+		return core.OkHex(out)
+	})
+}
+
+func okBytes(out string) ([]byte, bool) {
+	if len(out) >= 4 && out[:3] == "ok " {
+		return core.UnHex(out[3:]), true
+	}
+	return nil, false
+}
+
+// defect witnesses (fixed by the ExtractSerializedContainer length check): a false container header inside
+// the clear window of a masked column, read by a client without keys
+var corpus = []struct{ length uint64 }{{0}, {5}, {12}, {13}, {1 << 40}, {1 << 63}, {1<<64 - 1}}
+
+func run(r *core.Run) {
+	r.Rule = "masked columns: patterns (plain, containing tags, equal to window bytes) × window length 0…|v|+1 × side × envelope kind × value classes (random, tag runs, fake headers) × readers (owner, owner after rotation, other client, no keys); non-trivial = a write that produced a protected part; distinct by (config, value, reader)"
+	rd := r.Rand
+	none := &env.KV{NoPub: true, NoPrivs: true, NoSym: true, NoSyms: true}
+	// regression corpus first: false header in the window, reader without keys – must terminate, not panic, not drop bytes
+	for _, w := range corpus {
+		for _, id := range []byte{0xf0, 0xf1} {
+			col := append([]byte("ab%%%"), 0, 0, 0, 0, 0, 0, 0, 0)
+			for i := 0; i < 8; i++ {
+				col[5+i] = byte(w.length >> (8 * uint(i)))
+			}
+			col = append(append(col, id), []byte("xytail-of-the-column")...)
+			r.Begin(fmt.Sprintf("corpus-%d-%x", w.length, id), true, "stream:corpus")
+			line := fmt.Sprintf("C11.read block %s 2 left %s %s", core.Hex([]byte("xxxx")), none.Tokens(), core.Hex(col))
+			got := r.ImplIsolated(line, 5*time.Second)
+			r.Diff(line, got)
+			r.Check(got != "timeout" && got != "oom", "mask-scan-length", fmt.Sprintf("masked-column scan does not terminate on a false container header with length %d", w.length))
+			r.Check(got != core.Panic, "mask-scan-length", fmt.Sprintf("masked-column scan panics on a false container header with length %d", w.length))
+		}
+	}
+	// patterns are configuration strings (YAML text): printable ASCII only
+	patterns := [][]byte{[]byte("xxxx"), []byte("*"), []byte("%%%"), []byte("\"\"\"\""), []byte("masked-"), []byte("%%%%%%%%%%%%%"), []byte("0")}
+	n := r.N(120, 4000)
+	for i := 0; i < n; i++ {
+		kind := []string{"struct", "block"}[rd.Intn(2)]
+		side := []string{"left", "right"}[rd.Intn(2)]
+		if i%9 == 4 {
+			// spellings the configuration loader must reject (a loader that accepts them while the
+			// encryptor compares the raw string would mask the wrong side)
+			bad := []string{"Left", "LEFT", "Right", "RIGHT", "lef", "both"}[rd.Intn(6)]
+			r.Begin(fmt.Sprintf("badside-%s-%d", bad, i), true, "cfg:bad-side")
+			kvb := env.NewKV(rd, 1, 1)
+			v := rd.Bytes(12)
+			out := r.Do(fmt.Sprintf("C11.write block %s 4 %s %s %s %s", core.Hex([]byte("xxxx")), bad, kvb.Tokens(), core.Hex(v), core.Hex(env.Rnd(rd))))
+			if stored, ok := okBytes(out); ok {
+				// accepted: then it must at least behave as the side it names
+				none2 := &env.KV{NoPub: true, NoPrivs: true, NoSym: true, NoSyms: true}
+				got, _ := okBytes(r.Do(fmt.Sprintf("C11.read block %s 4 %s %s %s", core.Hex([]byte("xxxx")), bad, none2.Tokens(), core.Hex(stored))))
+				want := append(append([]byte{}, v[:4]...), []byte("xxxx")...)
+				if bad[0] == 'R' || bad[0] == 'r' {
+					want = append([]byte("xxxx"), v[8:]...)
+				}
+				r.Check(bytes.Equal(got, want), "mask-side-spelling", fmt.Sprintf("plaintext_side %q was accepted but the window shown is not the %s one", bad, bad))
+			}
+		}
+		l := 1 + rd.Intn(40)
+		if rd.Chance(10) {
+			l = 1 + rd.Intn(400)
+		}
+		v, class := env.Plain(rd, l)
+		if class == "fake-containers" || class == "container-tags" || rd.Chance(60) {
+			v = rd.Bytes(l) // mostly windows without tag material ("clean"); tag-rich ones are judged separately
+			class = "random"
+		}
+		k := rd.Intn(l + 2)
+		pat := core.Pick(rd, patterns)
+		if rd.Chance(10) && k > 0 && k <= l {
+			for j := 0; j < k; j++ { // pattern equal to the window bytes (made printable)
+				v[j] = 'a' + v[j]%26
+			}
+			pat = append([]byte{}, v[:k]...)
+		}
+		owner := env.NewKV(rd, 1+rd.Intn(3), 1+rd.Intn(3))
+		cfg := fmt.Sprintf("%s %s %d %s", kind, core.Hex(pat), k, side)
+		r.Begin(fmt.Sprintf("mask-%s-%x-%d", cfg, v[:min(6, len(v))], l), true, "kind:"+kind, "side:"+side, "class:"+class)
+		out := r.Do(fmt.Sprintf("C11.write %s %s %s %s", cfg, owner.Tokens(), core.Hex(v), core.Hex(env.Rnd(rd))))
+		stored, ok := okBytes(out)
+		if !r.Check(ok, "mask-write-failed", "masked write failed: "+out) {
+			continue
+		}
+		// window/hidden split
+		var window, hidden []byte
+		if k >= l {
+			window, hidden = nil, v
+			r.Tag("window:whole-value-protected")
+		} else if side == "left" {
+			window, hidden = v[:k], v[k:]
+		} else {
+			window, hidden = v[l-k:], v[:l-k]
+		}
+		// a hidden part that itself LOOKS like a protected value is passed through unwrapped by design (C01:
+		// "input that already is a protected value is passed through unchanged"); the masking theorems carry the
+		// hypothesis that it does not – such cases are compared with the model but not judged
+		lookalike := false
+		for _, q := range []string{"C01.handler.matchkind struct ", "C01.handler.matchkind block ", "C01.handler.match "} {
+			if r.Do(q+core.Hex(hidden)) == "true" {
+				lookalike = true
+			}
+		}
+		if lookalike {
+			r.Tag("hidden:lookalike-passthrough")
+			r.Do(fmt.Sprintf("C11.read %s %s %s", cfg, owner.Tokens(), core.Hex(stored)))
+			continue
+		}
+		// stored form: the window in clear on its side, never the hidden part
+		if class == "random" && len(hidden) >= 6 && !bytes.Contains(window, hidden) { // byte-scan oracles need a high-entropy marker
+			r.Check(!bytes.Contains(stored, hidden), "mask-stored-clear", fmt.Sprintf("the hidden part of a masked value is stored in clear (cfg %s, value %s)", cfg, core.Hex(v)))
+		}
+		// owner (possibly after a rotation: value written under an older key is still readable)
+		rot := *owner
+		nk := env.NewKV(rd, 1, 1)
+		rot.Privs = append([][]byte{nk.Privs[0]}, owner.Privs...)
+		rot.Syms = append([][]byte{nk.Syms[0]}, owner.Syms...)
+		rot.Pub, rot.Sym = nk.Pub, nk.Sym
+		for ri, reader := range []*env.KV{owner, &rot} {
+			got, ok := okBytes(r.Do(fmt.Sprintf("C11.read %s %s %s", cfg, reader.Tokens(), core.Hex(stored))))
+			r.Check(ok && bytes.Equal(got, v), "mask-owner", fmt.Sprintf("owner (reader %d) did not get the complete original value back (k=%d, side=%s, len=%d)", ri, k, side, l))
+		}
+		// readers that cannot decrypt: another client, a client without any keys
+		other := env.NewKV(rd, 1, 1)
+		clean := !bytes.Contains(window, []byte("%%%")) && !bytes.Contains(window, []byte("\"\"\"\""))
+		for ri, reader := range []*env.KV{other, none} {
+			got, ok := okBytes(r.Do(fmt.Sprintf("C11.read %s %s %s", cfg, reader.Tokens(), core.Hex(stored))))
+			if !r.Check(ok, "mask-read-failed", "masked read failed for a reader without keys") {
+				continue
+			}
+			var want []byte
+			if side == "left" {
+				want = append(append([]byte{}, window...), pat...)
+			} else {
+				want = append(append([]byte{}, pat...), window...)
+			}
+			if clean {
+				r.Check(bytes.Equal(got, want), "mask-other", fmt.Sprintf("reader %d without the key did not get exactly window+pattern (k=%d, side=%s, len=%d, got %d bytes)", ri, k, side, l, len(got)))
+			}
+			// never a hidden plaintext byte run, never ciphertext
+			if class == "random" && len(hidden) >= 6 && !bytes.Contains(want, hidden) {
+				r.Check(!bytes.Contains(got, hidden), "mask-leak-plain", "a reader without the key received the hidden plaintext")
+			}
+			prot := stored
+			if k < l {
+				if side == "left" {
+					prot = stored[k:]
+				} else {
+					prot = stored[:len(stored)-k]
+				}
+			}
+			for off := 12; off+8 <= len(prot); off += 8 {
+				if bytes.Contains(got, prot[off:off+8]) && !bytes.Contains(want, prot[off:off+8]) {
+					r.Fail("mask-leak-cipher", "a reader without the key received ciphertext bytes")
+					break
+				}
+			}
+		}
+	}
+}
